@@ -1206,8 +1206,23 @@ func racePhase(vd string, seed uint64, tier string, levels []int, a *agg) {
 			cmd := exec.Command(raceBin, "racepass", strconv.FormatUint(seed, 10), strconv.Itoa(j.from), strconv.Itoa(j.to))
 			cmd.Env = append(os.Environ(), fmt.Sprintf("FASTGO_VERIF_ARCHLEVEL=%d", j.level), fmt.Sprintf("GOMAXPROCS=%d", j.procs),
 				"GORACE=log_path="+logp+" halt_on_error=0 exitcode=0 history_size=3")
-			out, err := cmd.Output()
-			if err != nil {
+			var obuf bytes.Buffer
+			cmd.Stdout = &obuf
+			limit := 3 * time.Minute
+			if tier == "thorough" {
+				limit = 15 * time.Minute
+			}
+			err := runWithTimeout(cmd, limit)
+			out := obuf.Bytes()
+			if err != nil && strings.Contains(err.Error(), "timeout") {
+				// task sets that never finish when run side by side: same class as a hang
+				tr := &props.Trace{Property: "C17", Level: j.level, Seed: seed, Index: j.from, Note: "free", Oracle: "C17.free_running_hang",
+					Detail: fmt.Sprintf("free-running task sets %d..%d (seed %d) at level %d GOMAXPROCS %d did not finish within %v; each set finishes in milliseconds when its tasks run alone", j.from, j.to, seed, j.level, j.procs, limit)}
+				a.mu.Lock()
+				a.viol = append(a.viol, levelViolation{level: j.level, idx: j.from, v: props.Violation{Oracle: tr.Oracle, Detail: tr.Detail, Trace: tr, Features: map[string]string{}}})
+				a.violCount++
+				a.mu.Unlock()
+			} else if err != nil {
 				a.mu.Lock()
 				a.infra = append(a.infra, fmt.Sprintf("race pass level %d GOMAXPROCS %d: %v", j.level, j.procs, err))
 				a.mu.Unlock()
@@ -1280,7 +1295,10 @@ func replayFree(path string, tr *props.Trace) int {
 		for _, gp := range []int{2, 4, 16} {
 			cmd := exec.Command(raceBin, "racepass", strconv.FormatUint(tr.Seed, 10), strconv.Itoa(tr.Index), strconv.Itoa(tr.Index+40))
 			cmd.Env = append(os.Environ(), fmt.Sprintf("FASTGO_VERIF_ARCHLEVEL=%d", tr.Level), fmt.Sprintf("GOMAXPROCS=%d", gp), "GORACE=log_path="+logp+" halt_on_error=0 exitcode=0")
-			cmd.Run()
+			if err := runWithTimeout(cmd, 3*time.Minute); err != nil && strings.Contains(err.Error(), "timeout") && strings.HasSuffix(tr.Oracle, "free_running_hang") {
+				fmt.Printf("VIOLATION property=C17 replay=%s\n  oracle=%s the task sets did not finish within 3 minutes at GOMAXPROCS %d\n", path, tr.Oracle, gp)
+				return exitViolation
+			}
 		}
 		files, _ := filepath.Glob(logp + ".*")
 		for _, f := range files {
